@@ -85,3 +85,51 @@ for oa in 'rc':
                 'IMPLIES(g_calls == 1 && %s && %s, %s || %s)' % (VALID, idx_ok(''), okR('g_i', 'g_j', 'g_l'), okD('g_i', 'g_j', 'g_l')))],
       covers={'gen': ['g_calls == 1 && g_m > 2 && g_n > 3 && g_k > 4'], 'm1': ['g_calls == 1 && g_m == 1 && g_n > 1 && g_k > 1', 'g_m == 0'], 'n1': ['g_calls == 1 && g_n == 1 && g_k > 1'], 'k1': ['g_calls == 1 && g_k == 1']}[sz],
       assigns=[], mode='uf', objbits=12, timeout=900, cbmc_flags=['--no-pointer-check'], unwind=3, solvers=('minisat',), reject_ok=True)
+
+# ---------------------------------------------------------------------------------------------------------------------
+# gemv_n:  y = alpha * op(M) * x + beta * y ;  xGEMV is an assumed contract (recording stub)
+Group('blasv', ['boost/multi/array.hpp', 'boost/multi/adaptors/blas/gemv.hpp', 'complex'], profile='O', libs=['-lopenblas'], prelude='''
+using Z = std::complex<double>;
+using DMit = multi::array_iterator<double, 2, double*, true>;
+using DXit = multi::array_iterator<double, 1, double*, true>;
+using DYit = multi::array_iterator<double, 1, double*, false>;
+using ZA = multi::array<Z, 2>;
+using ZJit = decltype(multi::blas::J(std::declval<ZA const&>()).begin());
+using ZXit = multi::array_iterator<Z, 1, Z*, true>;
+using ZYit = multi::array_iterator<Z, 1, Z*, false>;
+''', noinline=[r'^_ZNSt7__cxx11', r'^_ZSt9to_string', r'^_ZNSt11logic_error', r'^_ZStplI'], cut=[r'_ZNSt7__cxx11', r'_ZSt9to_string', r'_ZNSt11logic_error', r'_ZSt.*terminate'])
+GV = [('g_t', 0, None, 'deref'), ('g_M', 1, None, 'deref'), ('g_N', 2, None, 'deref'), ('g_alpha', 3, None, 'deref'), ('g_A', 4, None, 'ptr'), ('g_lda', 5, None, 'deref'),
+      ('g_X', 6, None, 'ptr'), ('g_incx', 7, None, 'deref'), ('g_beta', 8, None, 'deref'), ('g_Y', 9, None, 'ptr'), ('g_incy', 10, None, 'deref')]
+def vec(v, n):
+    return '%s->ptr_ != 0 && 0 < %s->stride_ && %s->stride_ < SMALL' % (v, v, v)
+for T, pre, blasfn, mrec, xrec, yrec, mit, xit, yit, scal, conj in (
+        ('double', 'd', 'dgemv_', 'boost::multi::array_iterator<double,2,double*,true,false,long>', 'boost::multi::array_iterator<double,1,double*,true,false,long>',
+         'boost::multi::array_iterator<double,1,double*,false,false,long>', 'DMit', 'DXit', 'DYit', 'double', False),
+        ('Z', 'z', 'zgemv_', r're:boost::multi::array_iterator<std::complex<double>,2,boost::multi::blas::involuter<.*', r're:boost::multi::array_iterator<std::complex<double>,1,std::complex<double>\*,true(,false,long)?>',
+         r're:boost::multi::array_iterator<std::complex<double>,1,std::complex<double>\*(,false,false,long)?>', 'ZJit', 'ZXit', 'ZYit', 'Z', True)):
+    base = 'm->ptr_.base_.it_' if conj else 'm->ptr_.base_'
+    for om in ('r',) if conj else ('r', 'c'):
+        M_ = (lambda i, j: '(%s + MUL(%s, m->stride_) + (%s))' % (base, i, j)) if om == 'r' else (lambda i, j: '(%s + (%s) + MUL(%s, m->ptr_.layout_.stride_))' % (base, i, j))
+        orient_m = 'm->ptr_.layout_.stride_ == 1' if om == 'r' else 'm->stride_ == 1 && m->ptr_.layout_.stride_ != 1'
+        AF = lambda p, q: '(g_A + (%s) + MUL(%s, g_lda))' % (p, q)
+        okN = "(g_t == 'N' && g_M == g_m && g_N == g_n && %s == %s)" % (AF('g_i', 'g_j'), M_('g_i', 'g_j'))
+        okT = "((g_t == 'T' || g_t == 'C') && g_M == g_n && g_N == g_m && %s == %s)" % (AF('g_j', 'g_i'), M_('g_i', 'g_j'))
+        Check('G_gemv_%s_%s' % (pre, om), ['C13'], 'blasv', fn='w_G_gemv_%s_%s' % (pre, om), params=['a', 'm', 'count', 'x', 'b', 'y'],
+              wrapper=('void', '%s const* a, %s const* m, multi::size_t count, %s const* x, %s const* b, %s const* y' % (scal, mit, xit, scal, yit), 'multi::blas::gemv_n(*a, *m, count, *x, *b, *y);'),
+              cxx={'m': mrec, 'x': xrec, 'y': yrec},
+              ghosts=[(I64, 'g_m'), (I64, 'g_n'), (I64, 'g_i'), (I64, 'g_j')],
+              stubs=[Stub(blasfn, record=GV, count='g_calls')],
+              requires=['count == g_m && 0 < g_m && g_m < SMALL && 0 < g_n && g_n < SMALL', base + ' != 0',
+                        'm->ptr_.layout_.offset_ == 0 && m->ptr_.layout_.sub_.offset_ == 0 && m->ptr_.layout_.sub_.nelems_ == 1 && 0 < m->stride_ && m->stride_ < SMALL && 0 < m->ptr_.layout_.stride_ && m->ptr_.layout_.stride_ < SMALL',
+                        'm->ptr_.layout_.nelems_ == MUL(g_n, m->ptr_.layout_.stride_)', orient_m,
+                        '(m->ptr_.layout_.stride_ == 1 && m->stride_ >= MAX1(g_n)) || (m->stride_ == 1 && m->ptr_.layout_.stride_ >= MAX1(g_m))',
+                        vec('x', 'g_n'), vec('y', 'g_m'), '(void*)x->ptr_ != (void*)y->ptr_', 'INR(g_i) && INR(g_j)'],
+              lemmas=['LEMMA_MULDIV(g_n, m->ptr_.layout_.stride_)', 'LEMMA_MULZERO(g_n, m->ptr_.layout_.stride_)', 'LEMMA_MULREM(g_n, m->ptr_.layout_.stride_)', 'LEMMA_MUL1(g_n)',
+                      'LEMMA_MUL1(g_i)', 'LEMMA_MUL1(g_j)', 'LEMMA_MUL0(m->stride_)', 'LEMMA_MUL0(m->ptr_.layout_.stride_)'],
+              ensures=[('exactly one BLAS call', 'EXC != 0 || g_calls == 1'),
+                       ('vectors are passed with their own strides', 'IMPLIES(g_calls == 1, (void*)g_X == (void*)x->ptr_ && g_incx == x->stride_ && (void*)g_Y == (void*)y->ptr_ && g_incy == y->stride_)'),
+                       ('conjugation flag' if conj else 'no conjugation for real/plain matrices', "IMPLIES(g_calls == 1, %s)" % ("g_t == 'C'" if conj else "g_t == 'N' || g_t == 'T'")),
+                       ('whenever the leading dimension is BLAS-valid (lda >= max(1, M)), y[i] += op(M)[i][j] * x[j] is designated at every (i,j): the Fortran matrix cell is m[i][j] and the dimensions are in the right order',
+                        'IMPLIES(g_calls == 1 && g_lda >= MAX1(g_M) && 0 <= g_i && g_i < g_m && 0 <= g_j && g_j < g_n, %s || %s)' % (okN, okT))],
+              covers=['g_calls == 1 && g_m > 2 && g_n > 3 && g_m != g_n', 'g_calls == 1 && g_m == 1'],
+              assigns=[], mode='uf', objbits=12, timeout=900, cbmc_flags=['--no-pointer-check'], unwind=3, solvers=('minisat',), reject_ok=True)
